@@ -57,6 +57,35 @@ Theorem C01_grad_correct_distanceXY : forall cell pbc co e ax gm gr (s : SYS),
 Proof. exact cvc_grad_correct_distanceXY. Qed.
 Print Assumptions C01_grad_correct_distanceXY.
 
+Theorem C01_grad_correct_distanceZ2 : forall cell pbc co e gm g1 g2 (s : SYS),
+  grp_ok s gm -> grp_ok s g1 -> grp_ok s g2 -> plain pbc cell ->
+  com_of s g2 <> com_of s g1 ->                                   (* the two points defining the axis do not coincide *)
+  cvc_grad_correct cell (mkCvc co e (KDistanceZ2 pbc) [gm; g1; g2]) s.
+Proof. exact cvc_grad_correct_distanceZ2. Qed.
+Print Assumptions C01_grad_correct_distanceZ2.
+
+Theorem C01_grad_correct_distanceXY2 : forall cell pbc co e gm g1 g2 (s : SYS),
+  grp_ok s gm -> grp_ok s g1 -> grp_ok s g2 -> plain pbc cell ->
+  com_of s g2 <> com_of s g1 ->
+  v3norm2 Rops (vperp (v3sub Rops (com_of s gm) (com_of s g1)) (vunit Rops (v3sub Rops (com_of s g2) (com_of s g1)))) <> 0 ->
+  cvc_grad_correct cell (mkCvc co e (KDistanceXY2 pbc) [gm; g1; g2]) s.
+Proof. exact cvc_grad_correct_distanceXY2. Qed.
+Print Assumptions C01_grad_correct_distanceXY2.
+
+Theorem C01_grad_correct_angle : forall cell pbc co e g1 g2 g3 (s : SYS),
+  grp_ok s g1 -> grp_ok s g2 -> grp_ok s g3 -> plain pbc cell ->
+  com_of s g1 <> com_of s g2 -> com_of s g3 <> com_of s g2 ->
+  -1 < cosang (v3sub Rops (com_of s g1) (com_of s g2)) (v3sub Rops (com_of s g3) (com_of s g2)) < 1 ->   (* arms not collinear *)
+  cvc_grad_correct cell (mkCvc co e (KAngle pbc) [g1; g2; g3]) s.
+Proof. exact cvc_grad_correct_angle. Qed.
+Print Assumptions C01_grad_correct_angle.
+
+Theorem C01_grad_correct_inertiaZ : forall cell co e ax ids (s : SYS),
+  ids_ok s ids -> ids <> [] ->
+  cvc_grad_correct cell (mkCvc co e (KInertiaZ ax) [self_centred ids]) s.
+Proof. exact cvc_grad_correct_inertiaZ. Qed.
+Print Assumptions C01_grad_correct_inertiaZ.
+
 Theorem C01_grad_correct_inertia : forall cell co e ids (s : SYS),
   ids_ok s ids -> ids <> [] ->
   cvc_grad_correct cell (mkCvc co e KInertia [self_centred ids]) s.
